@@ -150,4 +150,52 @@ theorem skipL_offset : ∀ (rs : List TSRange) (pos : Length) (lo : Nat), Ordere
     · simp only [hc, if_false]
       refine ⟨fun _ => ⟨cur, by simp, hpos.1, by omega, by first | rfl | trivial⟩, fun h => by cases h⟩
 
+/-- The repaired range-skipping loop (`skipLF`, fixes/C13-empty-range-boundary.diff) and the original one
+agree on the number of ranges stepped over and on whether a range was reached, and — when one was — on
+the position (the start of a range that includes text is assigned by both); they differ only in the
+position left behind at the end of the ranges. -/
+theorem skipLF_agrees : ∀ (rs : List TSRange) (p1 p2 : Length),
+    (∀ r ∈ rs, r.start_byte ≤ r.end_byte) →
+    (∀ r rest, rs = r :: rest → r.end_byte ≠ r.start_byte → p1 = p2) →
+    (skipLF rs p1).1 = (skipL rs p2).1 ∧ (skipLF rs p1).2.2 = (skipL rs p2).2.2 ∧
+    ((skipL rs p2).2.2 = true → (skipLF rs p1).2.1 = (skipL rs p2).2.1)
+  | [], p1, p2, _, _ => by simp [skipL, skipLF]
+  | cur :: rest, p1, p2, hw, h => by
+    have step : ∀ (nxt : TSRange) (rest' : List TSRange), rest = nxt :: rest' →
+        (skipLF rest (if nxt.end_byte > nxt.start_byte then ⟨nxt.start_byte, nxt.start_point⟩ else p1)).1 =
+          (skipL rest ⟨nxt.start_byte, nxt.start_point⟩).1 ∧
+        (skipLF rest (if nxt.end_byte > nxt.start_byte then ⟨nxt.start_byte, nxt.start_point⟩ else p1)).2.2 =
+          (skipL rest ⟨nxt.start_byte, nxt.start_point⟩).2.2 ∧
+        ((skipL rest ⟨nxt.start_byte, nxt.start_point⟩).2.2 = true →
+          (skipLF rest (if nxt.end_byte > nxt.start_byte then ⟨nxt.start_byte, nxt.start_point⟩ else p1)).2.1 =
+            (skipL rest ⟨nxt.start_byte, nxt.start_point⟩).2.1) := by
+      intro nxt rest' hr
+      refine skipLF_agrees rest _ _ (fun r hr' => hw r (List.mem_cons_of_mem _ hr')) ?_
+      intro r rs hrr hne
+      rw [hr] at hrr; cases hrr
+      have := hw nxt (by rw [hr]; simp)
+      have hgt : nxt.end_byte > nxt.start_byte := by omega
+      simp [hgt]
+    unfold skipL skipLF
+    by_cases he : cur.end_byte = cur.start_byte
+    · simp only [he, or_true, if_true]
+      cases rest with
+      | nil => simp
+      | cons nxt rest' =>
+        have ih := step nxt rest' rfl
+        simp only at ih ⊢
+        exact ⟨by rw [ih.1], ih.2.1, ih.2.2⟩
+    · have hp : p1 = p2 := h cur rest rfl he
+      subst hp
+      simp only [he, or_false]
+      by_cases hc : p1.bytes ≥ cur.end_byte
+      · simp only [hc, if_true]
+        cases rest with
+        | nil => simp
+        | cons nxt rest' =>
+          have ih := step nxt rest' rfl
+          simp only at ih ⊢
+          exact ⟨by rw [ih.1], ih.2.1, ih.2.2⟩
+      · simp [hc]
+
 end TsVerif.C13
